@@ -2,6 +2,8 @@
 // `go f(); go g()` to simgo.Pair(f, g).
 package simgo
 
+import "sort"
+
 // Order, when set by the simulator, decides which of the two sibling tasks runs
 // first; both then run sequentially on the caller's goroutine. When nil (default)
 // the original behaviour is kept: two goroutines.
@@ -24,4 +26,39 @@ func Pair(f, g func()) {
 		f()
 		g()
 	}
+}
+
+// Map iteration: code the overlay rewrote from `for k, v := range m` (string keys) asks Keys for
+// the key order. Go randomises map iteration per process and per loop; under simulation the order
+// is the sorted key list permuted by a stream derived from the case seed (ResetMaps, called by the
+// runner before every execution), so that one seed is one exactly repeatable execution and
+// different seeds still exercise different orders.
+var mapSeed, mapCalls uint64
+
+// MapPerms counts how many map walks the simulator ordered.
+var MapPerms int64
+
+func ResetMaps(seed uint64) { mapSeed, mapCalls = seed, 0 }
+
+func Keys[V any](m map[string]V) []string {
+	keys := make([]string, 0, len(m))
+	for k := range m {
+		keys = append(keys, k)
+	}
+	sort.Strings(keys)
+	mapCalls++
+	MapPerms++
+	z := mapSeed + mapCalls*0x9e3779b97f4a7c15
+	next := func() uint64 {
+		z += 0x9e3779b97f4a7c15
+		x := z
+		x = (x ^ (x >> 30)) * 0xbf58476d1ce4e5b9
+		x = (x ^ (x >> 27)) * 0x94d049bb133111eb
+		return x ^ (x >> 31)
+	}
+	for i := len(keys) - 1; i > 0; i-- {
+		j := int(next() % uint64(i+1))
+		keys[i], keys[j] = keys[j], keys[i]
+	}
+	return keys
 }
